@@ -168,7 +168,7 @@ def call_api(schema, source, op, hooks=None):
         conv = get_converter(op.get('conv'))
         if conv is not None:
             kw['converter'] = conv
-        for k in ('decimal_type', 'datetime_types', 'binary_types', 'fill_missing', 'keep_empty',
+        for k in ('decimal_type', 'datetime_types', 'binary_types', 'fill_missing', 'keep_empty', 'keep_unknown',
                   'max_depth', 'process_namespaces'):
             if k in op:
                 kw[k] = op[k] if k != 'decimal_type' else {'str': str, 'float': float}[op[k]]
